@@ -7,8 +7,9 @@ MEMSHIM = ("double-free", "bad-layout", "bad-free", "bad-realloc", "canary", "us
 
 FATAL = {
     "C01": {"always": ("TextOK", "ResultOK", "Abort"), "must_exercise": ("InlineEdit", "Growth"), "conv": ("BigOpOK", "LoopOK")},
-    "C02": {"always": ("Isolation", "StaticsOK"), "shim": ("shared-write",), "must_exercise": ("Isolation",)},
-    "C03": {"always": ("RcOK", "BlocksOK", "NoResizeShared", "EndClean", "Abort"), "shim": MEMSHIM, "must_exercise": ("NoResizeShared",)},
+    "C02": {"always": ("Isolation", "StaticsOK"), "shim": ("shared-write",), "heap": ("shared-write", "shared-realloc"), "must_exercise": ("Isolation",)},
+    "C03": {"always": ("RcOK", "BlocksOK", "NoResizeShared", "EndClean", "Abort"), "shim": MEMSHIM, "heap": ("use-after-free", "double-free", "underflow", "free-while-referenced", "leak", "shim:", "abort", "shared-realloc"),
+            "must_exercise": ("NoResizeShared",)},
     # the accounting predicates count against C05 from the step at which an allocation was refused on
     "C05": {"always": ("FailAtomic",), "when": {"inj": ("RcOK", "BlocksOK", "EndClean", "TextOK", "Isolation", "Utf8OK", "ResultOK", "Abort")},
             "shim": MEMSHIM, "shim_when": "inj", "must_exercise": ("FailAtomic",)},
@@ -50,8 +51,8 @@ def mc(cfg, **kw):
     d.update(kw)
     return d
 
-def drive(name, histories, ops, mode="mixed", files=8):
-    return {"kind": "drive", "name": name, "histories": histories, "ops": ops, "mode": mode, "files": files}
+def drive(name, histories, ops, mode="mixed", files=8, heap=False):
+    return {"kind": "drive", "name": name, "histories": histories, "ops": ops, "mode": mode, "files": files, "heap": heap}
 
 CORE3, CORE4, CORE5 = mc("MC_Core_d3"), mc("MC_Core_d4"), mc("MC_Core_d5")
 SEED1, SEED2, SEED3 = mc("MC_Seeded_d1"), mc("MC_Seeded_d2"), mc("MC_Seeded_d3")
@@ -68,16 +69,19 @@ def conc(name, threads, configs, **kw):
     d.update(kw)
     return d
 
-def dq(mode): return drive("q-" + mode, 10, 120, mode, 8)      # ~20 k records
-def dt(mode): return drive("t-" + mode, 40, 250, mode, 16)     # ~320 k records
+def dq(mode, heap=False): return drive("q-" + mode, 10, 120, mode, 8, heap)      # ~20 k records
+def dt(mode, heap=False): return drive("t-" + mode, 40, 250, mode, 16, heap)     # ~320 k records
+# pipeline E: the repository's own tests (one process per test) under the hooks, every allocator / reference-count /
+# buffer event validated against the buffer protocol spec/Heap.tla; drives with heap=True feed the same monitor
+SUITEQ, SUITET = {"kind": "heap", "cases": 32}, {"kind": "heap", "cases": 1024}
 
 def matrix(stages):
     return {"kind": "matrix", "configs": ["default", "nodefault", "all"], "profiles": ["release", "debug"], "stages": stages}
 
 PROFILES = {
     "C01": {"quick": [CORE4, SEED2, SCALE, dq("mixed")], "thorough": [CORE5, SEED3, CORE3H, FINAL2, SIM, SCALE, dt("mixed"), dt("all")]},
-    "C02": {"quick": [CORE3, SEED2, FAIL2, SIZES2, dq("all")], "thorough": [CORE4, SEED3, CORE3H, SEED3H, FAILP, SIZES2, SIM, PROOF, dt("all")]},
-    "C03": {"quick": [CORE3, SEED2, FAIL2, PROOF, dq("all")], "thorough": [CORE4, SEED3, CORE3H, SEED3H, FAILP, SIZES2, SIM, PROOF, dt("all")]},
+    "C02": {"quick": [CORE3, SEED2, FAIL2, SIZES2, dq("all", True), SUITEQ], "thorough": [CORE4, SEED3, CORE3H, SEED3H, FAILP, SIZES2, SIM, PROOF, dt("all", True), SUITET]},
+    "C03": {"quick": [CORE3, SEED2, FAIL2, PROOF, dq("all", True), SUITEQ], "thorough": [CORE4, SEED3, CORE3H, SEED3H, FAILP, SIZES2, SIM, PROOF, dt("all", True), SUITET]},
     "C04": {"quick": [conc("own2", "{1,2}", "cQuick2", sample_every=40), conc("lend3", "{1,2,3}", "cLend2", sample_every=40)],
             "thorough": [conc("own2", "{1,2}", "cQuick2", sample_every=10), conc("lend3", "{1,2,3}", "cLend2", sample_every=10), conc("own3", "{1,2,3}", "cOwn3", sample_every=40), conc("deep2", "{1,2}", "cDeep2", sample_every=200, workers=14)]},
     "C05": {"quick": [FAIL2, dq("fail")], "thorough": [FAILP, SEED2, dt("fail")]},
@@ -105,8 +109,8 @@ _SEQ_NOTE = ("Trusted: TLC, the Rust harness (shadow heap, observation code), th
              "observable projection) and by monitor-validated traces, not by proof.")
 CLAIMS = {
     "C01": {"text": "TLC explores every history of the op alphabet to the depth bound on a byte-level design model and checks Text = String-oracle text and every returned value on each transition; each transition is replayed on the real crate and on std String under every entry-point variant.", "note": _SEQ_NOTE, "ref": "DESIGN.md 5 C01"},
-    "C02": {"text": "Isolation (text, length, pointer of every non-target handle unchanged) is checked by TLC on every transition from seeds with shared/truncated-sibling/static-shared buffers; every transition replayed on the crate; the shim flags writes into a buffer whose count is above 1.", "note": _SEQ_NOTE, "ref": "DESIGN.md 5 C02"},
-    "C03": {"text": "Reference count = live handles, no dangling/leaked block, exact layouts, no resize under a reader, clean end of history: invariants of the design model (TLC) and, on the replayed code, facts observed by the shadow heap (guards, poison, quarantine) including failing-allocation histories.", "note": _SEQ_NOTE, "ref": "DESIGN.md 5 C03"},
+    "C02": {"text": "Isolation (text, length, pointer of every non-target handle unchanged) is checked by TLC on every transition from seeds with shared/truncated-sibling/static-shared buffers; every transition replayed on the crate; the shim flags writes into a buffer whose count is above 1; the buffer protocol Heap.tla (a block with count > 1 is never written or resized) is validated by TLC on the event logs of the random drives and of the repository's own test-suite run under the hooks.", "note": _SEQ_NOTE, "ref": "DESIGN.md 5 C02"},
+    "C03": {"text": "Reference count = live handles, no dangling/leaked block, exact layouts, no resize under a reader, clean end of history: invariants of the design model (TLC) and, on the replayed code, facts observed by the shadow heap (guards, poison, quarantine) including failing-allocation histories; the buffer protocol Heap.tla (count never underflows, free only at count 0 and once, no access after free, nothing live at the end) is validated by TLC on the event logs of the random drives and of the repository's own test-suite run under the hooks.", "note": _SEQ_NOTE, "ref": "DESIGN.md 5 C03"},
     "C05": {"text": "Fault enumeration inside the model: for every state of the seeded graph and every call, each allocator request the call issues is made to fail in turn; TLC checks outcome class, unchanged texts and accounting; every such transition is replayed with the shim failing exactly that request.", "note": _SEQ_NOTE, "ref": "DESIGN.md 5 C05"},
     "C06": {"text": "Size arguments are explored by class (small values around every boundary plus the three symbolic classes above the allocator limit / above 2^56-1 / overflowing usize), each materialised as several concrete values on the code; TLC checks Err => nothing changed, Ok => postcondition.", "note": _SEQ_NOTE, "ref": "DESIGN.md 5 C06"},
     "C07": {"text": "All byte indices 0..len+2 on texts mixing every character width in every storage state: TLC checks the panic set against the String oracle and that a rejected call changes nothing observable; replayed on the crate and on String.", "note": _SEQ_NOTE, "ref": "DESIGN.md 5 C07"},
